@@ -48,7 +48,7 @@ def corpus(check, S):
     cdir = os.path.join(common.VERIF, 'corpus', 'flow')
     for fn in sorted(glob.glob(os.path.join(cdir, '*.py'))):
         progs.append(('corpus:' + os.path.basename(fn), open(fn).read()))
-    n = 220 if quick else 3000
+    n = 120 if quick else 3000
     for i in range(n):
         g = pygen.Gen(check.rng, depth=check.rng.choice([2, 3, 3, 4]), loops=2.0)
         src = g.program()
@@ -57,6 +57,16 @@ def corpus(check, S):
         except SyntaxError:
             continue
         progs.append(('gen%d' % i, src))
+    # smaller programs on which the checked and the exact evaluator (exponential in the loop nesting depth) also run
+    for i in range(80 if quick else 1200):
+        g = pygen.Gen(check.rng, depth=check.rng.choice([2, 2, 3]), loops=1.5, scopes=check.rng.random() < 0.5)
+        src = g.program()
+        try:
+            ast.parse(src)
+        except SyntaxError:
+            continue
+        if max((len(l) - len(l.lstrip())) // 4 for l in src.splitlines()) <= 3 and len(src.splitlines()) <= 45:
+            progs.append(('val%d' % i, src))
     files = sorted(glob.glob(os.path.join(common.REPO, 'supp', '*.py')))
     if not quick:
         import sysconfig
@@ -74,7 +84,7 @@ def corpus(check, S):
 
 def run(check):
     quick = check.tier == 'quick'
-    check.prove(extra_targets=('drv_flow',))
+    check.prove(extra_targets=('drv_flow',), extra_audit_modules=('SuppModel.Witness.C04',))
     S = flowgraph.load_supp()
     tmp = os.path.join('/tmp', 'verif-c04-%d' % os.getpid())
     os.makedirs(tmp, exist_ok=True)
@@ -137,7 +147,10 @@ def run(check):
             except RecursionError:
                 pass
         gvs[label] = gv
-        requests.append({'op': 'evalmany', 'graph': gv.json, 'queries': queries, 'orders': orders})
+        req = {'op': 'evalmany', 'graph': gv.json, 'queries': queries, 'orders': orders}
+        if label.startswith('val') or label.startswith('corpus'):
+            req['validate'] = 1   # also run the checked and the exact evaluator (hypotheses of the partial theorems)
+        requests.append(req)
         meta.append((label, src, queries, orders, real_per_order))
         n_queries += sum(len(o) for o in orders)
         n_orders += len(orders)
@@ -145,11 +158,23 @@ def run(check):
             if len(reads) >= 2:
                 nontrivial.add(src)
     replies = common.ask_driver(requests, exe='drv_flow')
+    hyp = {'answers': 0, 'covered_by_C04_history_partial(checked=memo)': 0, 'covered_by_C04_history_validated(exact=memo)': 0, 'memo_differs_from_pure': 0}
     for (label, src, queries, orders, real_per_order), rep in zip(meta, replies):
         if 'answers' not in rep:
             check.oblige('correspondence query histories', False, '%s: driver said %r' % (label, rep))
             dis += 1
             continue
+        for k, (o, model) in enumerate(zip(orders, rep['answers'])):
+            if 'exact' in rep:
+                for m, c, e in zip(model, rep['checked'][k], rep['exact'][k]):
+                    hyp['answers'] += 1
+                    hyp['covered_by_C04_history_partial(checked=memo)'] += (c == m)
+                    hyp['covered_by_C04_history_validated(exact=memo)'] += (e == m)
+                    if e != m and e != 'out-of-fuel' and m != 'out-of-fuel':
+                        hyp['memo_differs_from_pure'] += 1
+                        if hyp['memo_differs_from_pure'] <= 3:
+                            check.oblige('memoised evaluator = pure evaluator on this history (per-run validation)', False,
+                                         '%s order %s: memo %r, exact %r\n%s' % (label, o[:12], m, e, src[:1500]))
         for o, real, model in zip(orders, real_per_order, rep['answers']):
             for i, a, m in zip(o, real, model):
                 if a != gvs[label].content_answer(flowgraph.canon_model(m)):
@@ -165,7 +190,12 @@ def run(check):
                          'files of the repository (thorough: + 120 stdlib files); per program every permutation of its reads when there are '
                          'at most 4 (thorough 5), else forward / reverse / inside-out / random orders, a subset queried twice, every query '
                          'repeated. evaluations = names_at queries replayed; non-trivial = distinct program with a loop and at least two reads')
-    check.extra.update({'programs': len(meta), 'histories': n_orders, 'disagreements': dis})
+    if hyp['memo_differs_from_pure'] == 0:
+        check.oblige('memoised evaluator = pure evaluator on every validated history (hypothesis of C04_history_validated, evaluated per run)', True)
+    check.extra.update({'programs': len(meta), 'histories': n_orders, 'disagreements': dis, 'per_run_hypotheses': hyp,
+                        'theorem_coverage_note': 'C04_history_partial covers the answers counted under checked=memo (loop-free, single and '
+                        'sequential loops); C04_history_validated covers those under exact=memo (all, nested loops included, per run); '
+                        'the full-strength C04_history_stmt is false of the model for non-extractor graphs (Witness/C04.lean)'})
     for label, src, queries, orders, _ in meta[:2] + meta[-1:]:
         check.sample({'program': label, 'source_head': src[:300], 'orders': [o[:8] for o in orders[:3]]})
     check.assumptions += [
